@@ -145,13 +145,11 @@ Section ExactTop.
      old store that the node set does not mention *)
   Theorem commit_exact_path_sinv S ss F r ns :
     sinv H S ss F -> commit H ss = Some (r, Some ns) ->
-    store_ok H (apply_nodeset PathScheme ns S) r F /\
     forall q b, am_get q (apply_nodeset PathScheme ns S) = Some b ->
       (exists Gq, gsub H true [] F q Gq /\ node_enc H Gq = Some b) \/
       (am_get q ns = None /\ am_get q S = Some b).
   Proof.
     intros SI C.
-    split; [exact (commit_store_ok H H_len S ss F r (Some ns) SI C)|].
     intros q b Q. rewrite (apply_nodeset_path ns (commit_sorted H ss r ns C)) in Q.
     destruct (am_get q ns) as [[h b0 prev|prev]|] eqn:A; [|discriminate|right; auto].
     inversion Q; subst b0. left.
@@ -185,14 +183,4 @@ Section ExactTop.
       eapply UPD; [reflexivity|exact SF|exact Cn|]. exists h, prev. exact A.
   Qed.
 
-  Theorem commit_exact_path_partial S ss r ns :
-    reachable H S ss -> commit H ss = Some (r, Some ns) ->
-    exists F, sinv H S ss F /\ store_ok H (apply_nodeset PathScheme ns S) r F /\
-      forall q b, am_get q (apply_nodeset PathScheme ns S) = Some b ->
-        (exists Gq, gsub H true [] F q Gq /\ node_enc H Gq = Some b) \/
-        (am_get q ns = None /\ am_get q S = Some b).
-  Proof.
-    intros Rch C. destruct (reachable_sinv H H_len H_inj_empty S ss Rch) as (F & SI & _).
-    exists F. split; [exact SI|]. exact (commit_exact_path_sinv S ss F r ns SI C).
-  Qed.
 End ExactTop.
